@@ -3,8 +3,8 @@ Require Extraction.
 Require Import ExtrOcamlBasic.
 Extraction Language OCaml.
 Extraction "../ocaml/c15/model.ml" util_add util_mul util_divmod util_z
-  get_chunks send_snapshot stream_chunks stream_snapshot block_ranges path_base bad_name to_message
+  get_chunks send_snapshot send_message witness_chunk stream_chunks stream_snapshot block_ranges path_base bad_name to_message
   init add tick close mark_removed step run
   snapshot_chunk_size snapshot_gc_tick snapshot_chunk_timeout_tick max_concurrent_slot
-  transport_bin_version last_chunk_count snapshot_flag_filename snapshot_header_size block_file_magic
+  transport_bin_version last_chunk_count snapshot_flag_filename snapshot_header_size block_file_magic witness_snapshot_filename
   drop_stream_on_invalid_chunk first_chunk_validated_before_discard record_checks_present.
